@@ -139,12 +139,12 @@ Print Assumptions C05_refuted_old_early_exit.
 (* History: the solver as first ported (5c6fa44: one merge per satisfy() call,
    inactive list never shortened) returned with an unflagged constraint
    violated by more than 1/2 on witness A.1 of DESIGN.md (kept compiled). *)
-Theorem C05_refuted_cur :
+Theorem C05_refuted_old_first_port :
   exists st c, vpsc_cur a1_vars a1_cons = Ok (st, c) /\
     exists j, (j < length a1_cons)%nat /\ nth j (flags st) true = false /\
               slack_fn a1_vars (positions a1_vars st) (nth j a1_cons dcon) < - (1 # 2).
 Proof. exact C05_refuted_cur_lemma. Qed.
-Print Assumptions C05_refuted_cur.
+Print Assumptions C05_refuted_old_first_port.
 
 (* non-vacuity: on the witness the CURRENT solve returns the optimum 254/3 and
    all proved checkers accept its exit state; on a contradictory 2-cycle it
